@@ -349,6 +349,36 @@ impl Subject {
                 id.to_string()
             }
         };
+        let r = Self::build_http_plain(client, req, &cid, &sp);
+        // about one request in nine carries a header that proxies, tracing systems or clients add and
+        // that the server has no business with; values may contain non-ASCII bytes (obs-text)
+        let salt = (client.as_u128() as u64) ^ match req {
+            Req::AddVersion { parent, data } => parent.as_u128() as u64 ^ data.len() as u64,
+            Req::GetChild { parent } => parent.as_u128() as u64,
+            Req::AddSnapshot { vid, data } => vid.as_u128() as u64 ^ data.len() as u64,
+            Req::GetSnapshot => 7,
+        };
+        if salt % 9 == 4 {
+            const EXTRA: [(&str, &[u8]); 10] = [
+                ("X-Request-Id", b"r\xe9sum\xe9-1"),
+                ("X-Correlation-Id", b"\xff\xfe-42"),
+                ("X-Forwarded-For", b"203.0.113.7, 10.0.0.1"),
+                ("Forwarded", b"for=\"[2001:db8::1]\";proto=https"),
+                ("Via", b"1.1 caf\xe9-proxy"),
+                ("User-Agent", b"taskchampion/1.0 (M\xfcnchen)"),
+                ("Accept-Language", b"de-DE, *;q=0.5"),
+                ("Traceparent", b"00-0af7651916cd43dd8448eb211c80319c-b7ad6b7169203331-01"),
+                ("Cookie", b"session=\xc3\xa9"),
+                ("X-Request-Id", b""),
+            ];
+            let (k, v) = EXTRA[((salt / 9) % EXTRA.len() as u64) as usize];
+            return r.header_bytes(k, v);
+        }
+        r
+    }
+
+    fn build_http_plain(client: Uuid, req: &Req, cid: &str, sp: &dyn Fn(&Uuid) -> String) -> HttpReq {
+        let _ = client;
         match req {
             Req::AddVersion { parent, data } => HttpReq::new("POST", &format!("/v1/client/add-version/{}", sp(parent)))
                 .header("X-Client-Id", &cid)
